@@ -104,7 +104,7 @@ class C06(Check):
     thorough_runs = 40000
     resolvers = {"perturb": resolve_perturb, "minus_unscheduled": minus_unscheduled, "restricted": pins_restricted, "extended": pins_extended}
     nontrivial_rule = "a schedule with at least one unscheduled optional task was returned and inertness / twin admission / optional rules were judged"
-    expected_probes = ["unscheduled_seen", "twin:P->P-U:admitted", "twin:P-U->P:admitted", "has:buffer", "has:work", "has:release", "has:tardiness",
+    expected_probes = ["unscheduled_seen", "candidate_admitted", "twin:P->P-U:admitted", "twin:P-U->P:admitted", "has:buffer", "has:work", "has:release", "has:tardiness",
                        "rule:OptionalTaskForceSchedule", "rule:OptionalTaskConditionSchedule", "rule:OptionalTasksDependency", "rule:ForceScheduleNOptionalTasks"]
 
     def plan(self, run_seed, tier):
@@ -142,6 +142,24 @@ class C06(Check):
                        "default": {"steer": {"mode": "greedy", "key": 77, "bias": rng.choice([None, "high", "edge"])}}})
         script.append({"client": "A2", "op": "solve", "only_if": {"client": "D", "when": "solution"},
                        "env": [{"steer": {"mode": "extended", "of": "D", "base": "A"}}]})
+        # completeness of the optional-task rules: reference-valid candidates, one per distinct
+        # set of unscheduled tasks where possible, pinned on a fresh client
+        K = 6 if tier == "quick" else 12
+        allc = enum.enumerate_all(spec, limit=2500 if tier == "quick" else 8000) if spec.get("horizon") is not None and spec["horizon"] <= 9 else None
+        cands = allc if allc is not None else enum.sample(spec, keyed_rng(run_seed, "sample"), tries=120, want=K)
+        valid = [c for c in cands if c[0] == sem.V]
+        crng = keyed_rng(run_seed, "choose")
+        crng.shuffle(valid)
+        by_subset = {}
+        for c in valid:
+            key = tuple(sorted(t for t, x in c[1].tasks.items() if not x.x))
+            by_subset.setdefault(key, c)
+        chosen = list(by_subset.values())[:K]
+        if chosen:
+            plan["clients"].append({"id": "A4", "spec": "=A", "config": {}})
+            for st, c, sels, dyn in chosen:
+                pins = enum.cand_pins(spec, c, sels, dyn)
+                script.append({"client": "A4", "op": "solve", "env": [{"steer": {"mode": "pin", "pins": pins, "expect": "admit", "tag": "valid-candidate"}}]})
         plan["script"] = script
         return plan
 
@@ -176,6 +194,23 @@ class C06(Check):
                 pass
             for st in ev.get("steers") or []:
                 tag = st.get("tag", "")
+                if tag == "valid-candidate":
+                    if st.get("admitted"):
+                        v.probe("candidate_admitted")
+                    elif st.get("why") != "unknown":
+                        pins = st.get("pins") or {}
+                        rebuilt = enum.cand_from_pins(spec, pins)
+                        if rebuilt is not None and enum.classify(spec, rebuilt[0])[0] == sem.V:
+                            from .c05 import CHECK as C05CHECK
+                            culprits = C05CHECK.culprits(plan, spec, pins)
+                            unsched = sorted(k[2:] for k, val in pins.items() if k.startswith("x:") and val is False)
+                            # only what concerns optional tasks belongs to this property
+                            if unsched or any(k.startswith(("Optional", "ForceScheduleN", "task.optional")) for k in culprits):
+                                v.violate("C06", "lost_schedule_with_unscheduled", culprits, {"pins": pins, "unscheduled": unsched}, ev["seq"], ev["client"])
+                            else:
+                                s2 = "C05/lost_schedule/" + "+".join(culprits)
+                                v.notes[s2] = v.notes.get(s2, 0) + 1
+                    continue
                 if tag.startswith("twin:") and st.get("expect") == "admit":
                     if st.get("admitted"):
                         v.probe(tag + ":admitted")
